@@ -275,6 +275,7 @@ def monitor(scn, sobj, rep, sf, ck):
     reqs, glob, mtu, own = sobj.meta["reqs"], sobj.meta["glob"], sobj.meta["mtu"], sobj.meta["own"]
     globs, switch_at = sobj.meta.get("globs", [glob]), sobj.meta.get("switch_at")
     calls = 0
+    earlier = [glob]      # the values the platform has held since the session began (name / hardware id may change during it)
     reasm = {}
     types = set()
     for idx, inp in enumerate(scn.inputs):
@@ -283,9 +284,12 @@ def monitor(scn, sobj, rep, sf, ck):
         r = reqs[idx]
         if idx in sobj.meta.get("changes", {}):
             glob = sobj.meta["changes"][idx]
+            earlier.append(glob)
             rep.count("name_or_hardware_id_changed_mid_session")
         if switch_at is not None and idx >= switch_at:
             glob = globs[1]
+            if idx == switch_at:
+                earlier = [glob]          # a new session: whatever was kept of the old one is gone
         if sobj.meta.get("mtu_at") is not None and idx >= sobj.meta["mtu_at"]:
             mtu = sobj.meta["mtu2"]
         if r[0] == "other":
@@ -313,6 +317,16 @@ def monitor(scn, sobj, rep, sf, ck):
             continue
         more, ln, payload = W.qltresp_fields(raw)
         exp_payload, exp_more = qlt_expect(d, off, mtu)
+        if typ in (0x11, 0x13) and len(earlier) > 1 and (ln, payload, more) != (len(exp_payload), exp_payload, exp_more):
+            # the statement does not say when the platform is asked: a responder may read a property once per session (as it
+            # does with the icon) or for every request - the answer is judged against every value the platform has held since
+            # the session began, and must be one of them in full
+            for g_old in earlier[:-1]:
+                p_old, m_old = qlt_expect(data_for(g_old, typ), off, mtu)
+                if (ln, payload, more) == (len(p_old), p_old, m_old):
+                    exp_payload, exp_more = p_old, m_old
+                    rep.count("answers_from_a_value_held_earlier_in_the_session")
+                    break
         if f.seq != q:
             bad("sequence-number", "response seq %d" % f.seq)
         if len(raw) > mtu:
@@ -346,6 +360,9 @@ def monitor(scn, sobj, rep, sf, ck):
             typ = 0x0E
         got = b"".join(c[1] for c in chunks)
         ok = got == d and not chunks[-1][2] and all(c[2] for c in chunks[:-1])
+        if not ok and typ in (0x11, 0x13) and not chunks[-1][2] and all(c[2] for c in chunks[:-1]):
+            held = [globs[0]] + list(sobj.meta.get("changes", {}).values()) + [globs[-1]]
+            ok = any(got == data_for(g_, typ) for g_ in held)
         rep.count("reassemblies")
         if len(chunks) >= 3:
             rep.count("reassemblies_3plus_chunks")
